@@ -686,7 +686,9 @@ static R3 reuler(int order, bool fixed, LD x, LD y, LD z)
 	int a0 = ORDERS[order][0] - 'X', a1 = ORDERS[order][1] - 'X', a2 = ORDERS[order][2] - 'X';
 	return fixed ? rmul(rmul(rel(a2, z), rel(a1, y)), rel(a0, x)) : rmul(rmul(rel(a0, x), rel(a1, y)), rel(a2, z));
 }
-static std::string conv_name(int conv) { return std::string(ORDERS[conv % 12]) + (conv >= 12 ? "*" : ""); }
+static const char* CONV_NAMES[24] = {"XYZ", "XZY", "YXZ", "YZX", "ZXY", "ZYX", "XYX", "XZX", "YXY", "YZY", "ZXZ", "ZYZ",
+                                     "XYZ*", "XZY*", "YXZ*", "YZX*", "ZXY*", "ZYX*", "XYX*", "XZX*", "YXY*", "YZY*", "ZXZ*", "ZYZ*"};
+static std::string conv_name(int conv) { return CONV_NAMES[conv]; }
 
 template<class T> static R3 from_m4(const asl::Matrix4_<T>& m) { R3 r; for (int i = 0; i < 3; i++) for (int j = 0; j < 3; j++) r.a[i * 3 + j] = m(i, j); return r; }
 template<class T> static asl::Matrix4_<T> to_m4(const R3& r)
@@ -729,40 +731,46 @@ template<class T> static bool near_degenerate(const asl::Matrix4_<T>& m, int con
 struct RotCk
 {
 	vf::Ctx& c;
-	std::string what;   // description of the starting representation
+	std::function<std::string()> whatf;  // description of the starting representation, built only when needed
+	std::string extra;
 	R3 truth;
 	LD tolv;
 	const char* tn;
 	LD worst;
 	RotCk(vf::Ctx& c_, LD t, const char* tn_) : c(c_), tolv(t), tn(tn_), worst(0) {}
-	void ck(const R3& got, const char* key, const std::string& chain, bool force = false)
+	LD lastd;
+	// measure; true = outside the tolerance (then call report(); CK() does both and builds the texts only on failure)
+	bool bad(const R3& got, bool force = false)
 	{
-		if (g_nd && !force) return;
+		if (g_nd && !force) return false;
 		LD d = rdist(got, truth);
 		if (d > worst || d != d) worst = d;
+		lastd = d;
 		c.evals(1);
-		if (!(d <= tolv)) {
-			c.desc(what);
-			c.fail(std::string(key) + "." + tn, vf::fmt("rotation distance %.4Lg > %.1Lg after %s", d, tolv, chain.c_str()));
-		}
+		return !(d <= tolv);
+	}
+	void report(const std::string& key, const std::string& chain)
+	{
+		c.desc(whatf() + extra);
+		c.fail(key + "." + tn, vf::fmt("rotation distance %.4Lg > %.1Lg after %s", lastd, tolv, chain.c_str()));
 	}
 	// matrix -> eulerAngles(conv) -> rotateE(conv), judged as a rotation against the truth; src names where m came from
-	template<class T> void euler_rt(const asl::Matrix4_<T>& m, int conv, const std::string& key, const std::string& src)
+	template<class T> void euler_rt(const asl::Matrix4_<T>& m, int conv, const char* key, const char* src)
 	{
 		bool nd = near_degenerate(m, conv);
 		if (nd != (g_nd != 0)) { if (nd) c.count((std::string("euler.near_degenerate_input_deferred.") + tn).c_str()); return; }
-		std::string cn = conv_name(conv);
+		const char* cn = CONV_NAMES[conv];
 		bool g = gimbal_branch(m, conv);
-		std::string save = what;
-		if (nd) { what += " | matrix given to eulerAngles(\"" + cn + "\"): " + m4str(m); c.desc(what); c.count((std::string("euler.near_degenerate_input_judged.") + tn).c_str()); }
-		asl::Vec3_<T> e = m.eulerAngles(cn.c_str());
-		std::string k1 = key + (g ? ".gimbal" : "");
-		ck(reuler(conv % 12, conv >= 12, e.x, e.y, e.z), (k1 + ".euler").c_str(), src + ".eulerAngles(\"" + cn + "\") mapped by the documented composition", true);
-		ck(from_m4(asl::Matrix4_<T>::rotateE(e, cn.c_str())), (k1 + ".euler-matrix").c_str(), "rotateE(" + src + ".eulerAngles(\"" + cn + "\"), \"" + cn + "\")", true);
+		if (nd) { extra = std::string(" | matrix given to eulerAngles(\"") + cn + "\"): " + m4str(m); c.count((std::string("euler.near_degenerate_input_judged.") + tn).c_str()); }
+		asl::Vec3_<T> e = m.eulerAngles(cn);
+		if (bad(reuler(conv % 12, conv >= 12, e.x, e.y, e.z), true)) report(std::string(key) + (g ? ".gimbal" : "") + ".euler", std::string(src) + ".eulerAngles(\"" + cn + "\") mapped by the documented composition");
+		if (bad(from_m4(asl::Matrix4_<T>::rotateE(e, cn)), true)) report(std::string(key) + (g ? ".gimbal" : "") + ".euler-matrix", "rotateE(" + std::string(src) + ".eulerAngles(\"" + cn + "\"), \"" + cn + "\")");
 		if (g) c.count((std::string("euler.gimbal_branch_taken.") + tn).c_str());
-		what = save;
+		extra.clear();
 	}
 };
+
+#define CK(K, GOT, KEY, CHAIN) do { if ((K).bad(GOT)) (K).report(KEY, CHAIN); } while (0)
 
 static void note_worst(vf::Ctx& c, const std::string& what, LD worst, LD tolv)
 {
@@ -781,56 +789,53 @@ template<class T> static void rot_axis_angle(vf::Ctx& c, LD nx, LD ny, LD nz, LD
 	V v((T)(nx * t), (T)(ny * t), (T)(nz * t));
 	RotCk k(c, tol<T>(), tn);
 	k.truth = rv(v);
-	k.what = vf::fmt("%s rotation vector (%.*g, %.*g, %.*g) [direction (%.6Lg,%.6Lg,%.6Lg) angle %.17Lg]", tn, sizeof(T) == 4 ? 9 : 17, (double)v.x, sizeof(T) == 4 ? 9 : 17, (double)v.y,
-	                 sizeof(T) == 4 ? 9 : 17, (double)v.z, nx, ny, nz, t);
-	c.desc(k.what);
+	k.whatf = [=]() { return vf::fmt("%s rotation vector (%.*g, %.*g, %.*g) [direction (%.6Lg,%.6Lg,%.6Lg) angle %.17Lg]", tn, sizeof(T) == 4 ? 9 : 17, (double)v.x, sizeof(T) == 4 ? 9 : 17, (double)v.y,
+	                 sizeof(T) == 4 ? 9 : 17, (double)v.z, nx, ny, nz, t); };
 	Q q = Q::fromAxisAngle(v);
-	k.ck(rq(q), "conv.axisangle-quaternion", "Quaternion::fromAxisAngle(v)");
 	M m = M::rotate(v);
-	k.ck(from_m4(m), "conv.axisangle-matrix", "Matrix4::rotate(v)");
-	k.ck(from_m4(q.matrix()), "conv.quaternion-matrix", "fromAxisAngle(v).matrix()");
+	LD sc = 0.25L + 3 * (LD)c.rng.unit();
+	if (!g_nd) {
+	CK(k, rq(q), "conv.axisangle-quaternion", "Quaternion::fromAxisAngle(v)");
+	CK(k, from_m4(m), "conv.axisangle-matrix", "Matrix4::rotate(v)");
+	CK(k, from_m4(q.matrix()), "conv.quaternion-matrix", "fromAxisAngle(v).matrix()");
 	V v1 = q.axisAngle();
-	k.ck(rv(v1), "rt.axisangle-quaternion-axisangle", "fromAxisAngle(v).axisAngle()");
+	CK(k, rv(v1), "rt.axisangle-quaternion-axisangle", "fromAxisAngle(v).axisAngle()");
 	V v2 = m.axisAngle();
-	k.ck(rv(v2), "rt.axisangle-matrix-axisangle", "rotate(v).axisAngle()");
+	CK(k, rv(v2), "rt.axisangle-matrix-axisangle", "rotate(v).axisAngle()");
 	Q q2 = m.rotation();
-	k.ck(rq(q2), "rt.matrix-quaternion", "rotate(v).rotation()");
-	k.ck(from_m4(q2.matrix()), "rt.matrix-quaternion-matrix", "rotate(v).rotation().matrix()");
-	k.ck(from_m4(M::rotate(v2)), "rt.matrix-axisangle-matrix", "rotate(rotate(v).axisAngle())");
-	k.ck(rq(Q::fromAxisAngle(v1)), "rt.quaternion-axisangle-quaternion", "fromAxisAngle(fromAxisAngle(v).axisAngle())");
-	k.ck(rq(Q::fromAxisAngle(q2.axisAngle())), "rt.chain", "fromAxisAngle(rotate(v).rotation().axisAngle())");
+	CK(k, rq(q2), "rt.matrix-quaternion", "rotate(v).rotation()");
+	CK(k, from_m4(q2.matrix()), "rt.matrix-quaternion-matrix", "rotate(v).rotation().matrix()");
+	CK(k, from_m4(M::rotate(v2)), "rt.matrix-axisangle-matrix", "rotate(rotate(v).axisAngle())");
+	CK(k, rq(Q::fromAxisAngle(v1)), "rt.quaternion-axisangle-quaternion", "fromAxisAngle(fromAxisAngle(v).axisAngle())");
+	CK(k, rq(Q::fromAxisAngle(q2.axisAngle())), "rt.chain", "fromAxisAngle(rotate(v).rotation().axisAngle())");
 	// the other quaternion of the same rotation
 	Q qn = -q;
-	k.ck(from_m4(qn.matrix()), "conv.negquaternion-matrix", "(-q).matrix()");
-	k.ck(rv(qn.axisAngle()), "conv.negquaternion-axisangle", "(-q).axisAngle()");
-	k.ck(rq(qn.matrix().rotation()), "rt.negquaternion-matrix-quaternion", "(-q).matrix().rotation()");
+	CK(k, from_m4(qn.matrix()), "conv.negquaternion-matrix", "(-q).matrix()");
+	CK(k, rv(qn.axisAngle()), "conv.negquaternion-axisangle", "(-q).axisAngle()");
+	CK(k, rq(qn.matrix().rotation()), "rt.negquaternion-matrix-quaternion", "(-q).matrix().rotation()");
 	// separate axis + angle forms (axis of arbitrary positive length, and unit axis)
 	if (nx != 0 || ny != 0 || nz != 0) {
-		LD sc = 0.25L + 3 * (LD)c.rng.unit();
 		V ax((T)(nx * sc), (T)(ny * sc), (T)(nz * sc));
 		T ang = (T)t;
 		RotCk k2(c, tol<T>(), tn);
 		k2.truth = raxis(ax.x, ax.y, ax.z, ang);
-		k2.what = vf::fmt("%s axis (%.9g, %.9g, %.9g) angle %.17g", tn, (double)ax.x, (double)ax.y, (double)ax.z, (double)ang);
-		c.desc(k2.what);
-		k2.ck(rq(Q::fromAxisAngle(ax, ang)), "conv.axis+angle-quaternion", "Quaternion::fromAxisAngle(axis, angle)");
-		k2.ck(from_m4(M::rotate(ax, ang)), "conv.axis+angle-matrix", "Matrix4::rotate(axis, angle)");
-		k2.ck(rv(M::rotate(ax, ang).axisAngle()), "rt.axis+angle-matrix-axisangle", "rotate(axis, angle).axisAngle()");
+		k2.whatf = [=]() { return vf::fmt("%s axis (%.9g, %.9g, %.9g) angle %.17g", tn, (double)ax.x, (double)ax.y, (double)ax.z, (double)ang); };
+		CK(k2, rq(Q::fromAxisAngle(ax, ang)), "conv.axis+angle-quaternion", "Quaternion::fromAxisAngle(axis, angle)");
+		CK(k2, from_m4(M::rotate(ax, ang)), "conv.axis+angle-matrix", "Matrix4::rotate(axis, angle)");
+		CK(k2, rv(M::rotate(ax, ang).axisAngle()), "rt.axis+angle-matrix-axisangle", "rotate(axis, angle).axisAngle()");
 		V un((T)nx, (T)ny, (T)nz);
 		RotCk k3(c, tol<T>(), tn);
 		k3.truth = raxis(un.x, un.y, un.z, ang);
-		k3.what = vf::fmt("%s unit axis (%.9g, %.9g, %.9g) angle %.17g", tn, (double)un.x, (double)un.y, (double)un.z, (double)ang);
-		c.desc(k3.what);
-		k3.ck(rq(Q::fromAxisAngleU(un, ang)), "conv.unitaxis+angle-quaternion", "Quaternion::fromAxisAngleU(axis, angle)");
+		k3.whatf = [=]() { return vf::fmt("%s unit axis (%.9g, %.9g, %.9g) angle %.17g", tn, (double)un.x, (double)un.y, (double)un.z, (double)ang); };
+		CK(k3, rq(Q::fromAxisAngleU(un, ang)), "conv.unitaxis+angle-quaternion", "Quaternion::fromAxisAngleU(axis, angle)");
 		if (k2.worst > k.worst) k.worst = k2.worst;
 		if (k3.worst > k.worst) k.worst = k3.worst;
-		c.desc(k.what);
+	}
 	}
 	// correctly rounded rotation matrix as a starting point, and Euler angles of one convention
 	M mr = to_m4<T>(k.truth);
-	k.ck(rq(mr.rotation()), "conv.matrix-quaternion", "R.rotation() of the correctly rounded matrix");
-	k.ck(rv(mr.axisAngle()), "conv.matrix-axisangle", "R.axisAngle() of the correctly rounded matrix");
-	std::string cn = conv_name(conv);
+	CK(k, rq(mr.rotation()), "conv.matrix-quaternion", "R.rotation() of the correctly rounded matrix");
+	CK(k, rv(mr.axisAngle()), "conv.matrix-axisangle", "R.axisAngle() of the correctly rounded matrix");
 	k.euler_rt(mr, conv, "rt.matrix", "R[correctly rounded]");
 	k.euler_rt(m, conv, "rt.axisangle-matrix", "rotate(v)");
 	note_worst(c, std::string("axisangle.") + tn, k.worst, k.tolv);
@@ -846,21 +851,22 @@ template<class T> static void rot_quat(vf::Ctx& c, LD w, LD x, LD y, LD z, int c
 	LD ql = sqrtl((LD)q.w * q.w + (LD)q.x * q.x + (LD)q.y * q.y + (LD)q.z * q.z);
 	k.truth = rquat(q.w / ql, q.x / ql, q.y / ql, q.z / ql);
 	int pr = sizeof(T) == 4 ? 9 : 17;
-	k.what = vf::fmt("%s unit quaternion (w=%.*g, x=%.*g, y=%.*g, z=%.*g)", tn, pr, (double)q.w, pr, (double)q.x, pr, (double)q.y, pr, (double)q.z);
-	c.desc(k.what);
+	k.whatf = [=]() { return vf::fmt("%s unit quaternion (w=%.*g, x=%.*g, y=%.*g, z=%.*g)", tn, pr, (double)q.w, pr, (double)q.x, pr, (double)q.y, pr, (double)q.z); };
+	if (!g_nd) {
 	M m = q.matrix();
-	k.ck(from_m4(m), "conv.quaternion-matrix", "q.matrix()");
+	CK(k, from_m4(m), "conv.quaternion-matrix", "q.matrix()");
 	Q q2 = m.rotation();
-	k.ck(rq(q2), "rt.quaternion-matrix-quaternion", "q.matrix().rotation()");
+	CK(k, rq(q2), "rt.quaternion-matrix-quaternion", "q.matrix().rotation()");
 	V v = q.axisAngle();
-	k.ck(rv(v), "conv.quaternion-axisangle", "q.axisAngle()");
-	k.ck(rq(Q::fromAxisAngle(v)), "rt.quaternion-axisangle-quaternion", "fromAxisAngle(q.axisAngle())");
-	k.ck(from_m4(M::rotate(v)), "rt.quaternion-axisangle-matrix", "rotate(q.axisAngle())");
-	k.ck(rv(m.axisAngle()), "rt.quaternion-matrix-axisangle", "q.matrix().axisAngle()");
+	CK(k, rv(v), "conv.quaternion-axisangle", "q.axisAngle()");
+	CK(k, rq(Q::fromAxisAngle(v)), "rt.quaternion-axisangle-quaternion", "fromAxisAngle(q.axisAngle())");
+	CK(k, from_m4(M::rotate(v)), "rt.quaternion-axisangle-matrix", "rotate(q.axisAngle())");
+	CK(k, rv(m.axisAngle()), "rt.quaternion-matrix-axisangle", "q.matrix().axisAngle()");
+	}
 	M mr = to_m4<T>(k.truth);
-	k.ck(rq(mr.rotation()), "conv.matrix-quaternion", "R.rotation() of the correctly rounded matrix");
-	k.ck(from_m4(mr.rotation().matrix()), "rt.matrix-quaternion-matrix", "R.rotation().matrix() of the correctly rounded matrix");
-	k.ck(rv(mr.axisAngle()), "conv.matrix-axisangle", "R.axisAngle() of the correctly rounded matrix");
+	CK(k, rq(mr.rotation()), "conv.matrix-quaternion", "R.rotation() of the correctly rounded matrix");
+	CK(k, from_m4(mr.rotation().matrix()), "rt.matrix-quaternion-matrix", "R.rotation().matrix() of the correctly rounded matrix");
+	CK(k, rv(mr.axisAngle()), "conv.matrix-axisangle", "R.axisAngle() of the correctly rounded matrix");
 	std::string cn = conv_name(conv);
 	k.euler_rt(mr, conv, "rt.matrix", "R[correctly rounded]");
 	// which branch of rotation() does this matrix take
@@ -1005,6 +1011,10 @@ static std::vector<LD> euler_outer_grid()
 	return A;
 }
 
+static const char* from_names[24] = {"rotateE(e,\"XYZ\")", "rotateE(e,\"XZY\")", "rotateE(e,\"YXZ\")", "rotateE(e,\"YZX\")", "rotateE(e,\"ZXY\")", "rotateE(e,\"ZYX\")",
+                                     "rotateE(e,\"XYX\")", "rotateE(e,\"XZX\")", "rotateE(e,\"YXY\")", "rotateE(e,\"YZY\")", "rotateE(e,\"ZXZ\")", "rotateE(e,\"ZYZ\")",
+                                     "rotateE(e,\"XYZ*\")", "rotateE(e,\"XZY*\")", "rotateE(e,\"YXZ*\")", "rotateE(e,\"YZX*\")", "rotateE(e,\"ZXY*\")", "rotateE(e,\"ZYX*\")",
+                                     "rotateE(e,\"XYX*\")", "rotateE(e,\"XZX*\")", "rotateE(e,\"YXY*\")", "rotateE(e,\"YZY*\")", "rotateE(e,\"ZXZ*\")", "rotateE(e,\"ZYZ*\")"};
 template<class T> static LD euler_one(vf::Ctx& c, int conv, LD x, LD y, LD z, bool cross)
 {
 	typedef asl::Vec3_<T> V; typedef asl::Quaternion_<T> Q; typedef asl::Matrix4_<T> M;
@@ -1016,13 +1026,12 @@ template<class T> static LD euler_one(vf::Ctx& c, int conv, LD x, LD y, LD z, bo
 	RotCk k(c, tol<T>(), tn);
 	k.truth = reuler(o, fixed, e.x, e.y, e.z);
 	int pr = sizeof(T) == 4 ? 9 : 17;
-	k.what = vf::fmt("%s Euler angles (%.*g, %.*g, %.*g) order \"%s\"", tn, pr, (double)e.x, pr, (double)e.y, pr, (double)e.z, cn.c_str());
-	c.desc(k.what);
+	k.whatf = [=]() { return vf::fmt("%s Euler angles (%.*g, %.*g, %.*g) order \"%s\"", tn, pr, (double)e.x, pr, (double)e.y, pr, (double)e.z, cn.c_str()); };
 	M m = M::rotateE(e, cn.c_str());
-	k.ck(from_m4(m), "conv.euler-matrix", "Matrix4::rotateE(e, \"" + cn + "\") against the documented composition");
-	if (!fixed) {
+	if (!g_nd) CK(k, from_m4(m), "conv.euler-matrix", "Matrix4::rotateE(e, \"" + cn + "\") against the documented composition");
+	if (!fixed && !g_nd) {
 		M mi = M::rotateE(e, ORDERS[o][0] - 'X', ORDERS[o][1] - 'X', ORDERS[o][2] - 'X');
-		k.ck(from_m4(mi), "conv.euler-matrix.int-axes", "Matrix4::rotateE(e, a0, a1, a2)");
+		CK(k, from_m4(mi), "conv.euler-matrix.int-axes", "Matrix4::rotateE(e, a0, a1, a2)");
 	}
 	k.euler_rt(m, conv, "rt.euler-matrix", "rotateE(e)");
 	// correctly rounded matrix of the same rotation
@@ -1030,12 +1039,14 @@ template<class T> static LD euler_one(vf::Ctx& c, int conv, LD x, LD y, LD z, bo
 	k.euler_rt(mr, conv, "rt.matrix", "R[correctly rounded]");
 	if (cross) {
 		// through the other representations and into another convention
-		Q q = m.rotation();
-		k.ck(rq(q), "rt.euler-matrix-quaternion", "rotateE(e).rotation()");
-		k.ck(rv(m.axisAngle()), "rt.euler-matrix-axisangle", "rotateE(e).axisAngle()");
+		if (!g_nd) {
+			Q q = m.rotation();
+			CK(k, rq(q), "rt.euler-matrix-quaternion", "rotateE(e).rotation()");
+			CK(k, rv(m.axisAngle()), "rt.euler-matrix-axisangle", "rotateE(e).axisAngle()");
+		}
 		int conv2 = (int)c.rng.below(24);
 		std::string cn2 = conv_name(conv2);
-		k.euler_rt(m, conv2, "rt.euler-matrix-other", "rotateE(e,\"" + cn + "\")");
+		k.euler_rt(m, conv2, "rt.euler-matrix-other", from_names[conv]);
 	}
 	return k.worst;
 }
@@ -1055,9 +1066,8 @@ template<class T> static LD euler_via_quat(vf::Ctx& c, int conv, LD x, LD y, LD 
 	// the rotation being converted is the one the quaternion holds
 	LD ql = sqrtl((LD)q.w * q.w + (LD)q.x * q.x + (LD)q.y * q.y + (LD)q.z * q.z);
 	k.truth = rquat(q.w / ql, q.x / ql, q.y / ql, q.z / ql);
-	k.what = vf::fmt("%s quaternion (w=%.*g, x=%.*g, y=%.*g, z=%.*g) [from Euler (%.*g, %.*g, %.*g) \"%s\"], matrix %s", tn, pr, (double)q.w, pr, (double)q.x, pr, (double)q.y, pr, (double)q.z,
-	                 pr, (double)e.x, pr, (double)e.y, pr, (double)e.z, cn.c_str(), m4str(mq).c_str());
-	c.desc(k.what);
+	k.whatf = [=]() { return vf::fmt("%s quaternion (w=%.*g, x=%.*g, y=%.*g, z=%.*g) [from Euler (%.*g, %.*g, %.*g) \"%s\"], matrix %s", tn, pr, (double)q.w, pr, (double)q.x, pr, (double)q.y, pr, (double)q.z,
+	                 pr, (double)e.x, pr, (double)e.y, pr, (double)e.z, cn.c_str(), m4str(mq).c_str()); };
 	k.euler_rt(mq, conv, "rt.quaternion-matrix", "q.matrix()");
 	return k.worst;
 }
